@@ -144,6 +144,39 @@ def run_shard(shard, tier, acc, oracle):
         tree.rmtree(root)
 
 
+def run_hashseed(tier, acc):
+    """Determinism across processes: the real CLI in two subprocesses with different PYTHONHASHSEED must print the same stream."""
+    import subprocess
+    import sys
+    td = tree.scratch_tree()
+    n = 0
+    for idx, spec in enumerate(specs('quick')):
+        if idx % 23:
+            continue
+        R.write_ruleset(os.path.join(td, 'Rules', 'v'), spec)
+        for flags in ([], ['--skip_brute', '--all_lower']):
+            outs = []
+            for seed in ('1', '2'):
+                env = dict(os.environ, PYTHONHASHSEED=seed)
+                r = subprocess.run([sys.executable, '-B', os.path.join(td, 'pcfg_guesser.py'), '-r', 'v'] + flags, stdin=subprocess.DEVNULL,
+                                   capture_output=True, env=env, timeout=300)
+                outs.append(r.stdout)
+                acc.evals += 1
+            n += 1
+            acc.nontrivial += 1
+            if outs[0] != outs[1] or not outs[0]:
+                acc.fail({'kind': 'hashseed', 'grammar': spec['grammar'], 'flags': flags},
+                         'pcfg_guesser printed different streams in two processes with PYTHONHASHSEED 1 and 2 (or nothing at all)', 'disk:C01:hashseed', oracle='C01')
+        import shutil
+        shutil.rmtree(os.path.join(td, 'Rules', 'v'))
+        for ext in ('.sav', '.omn'):
+            pth = os.path.join(td, 'default_run' + ext)
+            if os.path.exists(pth):
+                os.unlink(pth)
+    acc.count('hashseed_pairs', n)
+    tree.rmtree(td)
+
+
 def replay(case, oracle):
     tree.use()
     PcfgGrammar = tree.imp('lib_guesser.pcfg_grammar').PcfgGrammar
